@@ -44,6 +44,9 @@ def tasks(tier):
     out.append(dict(mode='quantized', N=3, D=2))
     out.append(dict(mode='quantized', N=5, D=3))
     out.append(dict(mode='compressed', N=3, D=2))
+    # non-default generate_training_metrics=False: the per-statistic errors still drive the acceptance gate on every replica
+    out.append(dict(mode='full', N=3, D=2, metrics=False))
+    out.append(dict(mode='full', N=5, D=3, metrics=False))
     for N, D in ((1, 2), (3, 2), (5, 3), (2, 3)):
       out.append(dict(mode='sharded', N=N, D=D))
   else:
@@ -59,6 +62,10 @@ def tasks(tier):
     for N in (3, 5):
       for D in (2, 3, 4):
         out.append(dict(mode='compressed', N=N, D=D))
+    for N in (2, 3, 5, 7):
+      for D in (2, 3, 4):
+        out.append(dict(mode='full', N=N, D=D, metrics=False))
+    out.append(dict(mode='quantized', N=3, D=2, metrics=False))
   return out
 
 
@@ -68,6 +75,8 @@ def cfg_of(t):
     c['memory_reduction'] = True
   if t['mode'] == 'compressed':
     c['compression_rank'] = 1
+  if 'metrics' in t:
+    c['metrics'] = t['metrics']
   return dsh.full_cfg(c)
 
 
@@ -211,7 +220,7 @@ def work(t):
   c = cfg_of(t)
   shapes = shapes_of(t)
   D = t['D']
-  tag = f"pmap|{t['mode']}|N={t['N']}|D={D}"
+  tag = f"pmap|{t['mode']}|N={t['N']}|D={D}" + ('' if 'metrics' not in t else f"|generate_training_metrics={t['metrics']}")
   try:
     tr1, leaves, outs1, _ = evaluate(c, shapes, 1)
     trD, _, outsD, interps = evaluate(c, shapes, D, leaves)
@@ -289,7 +298,7 @@ class RealCrash(Exception):
   pass
 
 
-def run(ndev):
+def run(ndev, fault=None):
   devs = jax.devices()[:ndev]
   rep = lambda x: jax.tree_util.tree_map(lambda a: jnp.stack([jnp.asarray(a)] * len(devs)), x)
   init = jax.pmap(opt.init, axis_name='batch', devices=devs)
@@ -302,28 +311,36 @@ def run(ndev):
   outs = []
   for step in range(4):
     g = {k: jnp.asarray(r.randn(*v.shape), jnp.float32) for k, v in params.items()}
+    if fault is not None and step == fault[0]:
+      k = sorted(g)[fault[1] %% len(g)]
+      g[k] = jnp.full_like(g[k], fault[2])
     try:
       u, st = upd(rep(g), st, rep(params))
     except Exception as ex:
       raise RealCrash(f'update under pmap over {ndev} devices raises {type(ex).__name__}: {str(ex)[:200]}')
     outs.append(jax.tree_util.tree_map(np.asarray, (u, st)))
   return outs
-try:
-  a, b = run(1), run(D)
-except RealCrash as ex:
+# histories: benign; a NaN / overflowing gradient for one parameter at one step (its roots fail, the others' must still be
+# accepted or rejected identically on every device)
+msg = None
+for fault in (None, (1, -1, float('nan')), (2, 0, float('nan')), (1, 1, 3e38)):
+ if msg: break
+ try:
+  a, b = run(1, fault), run(D, fault)
+ except RealCrash as ex:
   print(json.dumps(str(ex)))
   sys.exit(0)
-msg = None
-for step, (x, y) in enumerate(zip(a, b)):
-  lx, ly = jax.tree_util.tree_leaves(x), jax.tree_util.tree_leaves(y)
-  for k, (p, q) in enumerate(zip(lx, ly)):
-    for d in range(D):
-      pv, qv = np.asarray(p[0], np.float64), np.asarray(q[d], np.float64)
-      if pv.shape != qv.shape or not np.allclose(pv, qv, rtol=1e-3, atol=1e-5, equal_nan=True):
-        msg = f'step {step}: output leaf {k} on device {d} of {D} differs from the single-device run: {qv.reshape(-1)[:4]} vs {pv.reshape(-1)[:4]}'
-        break
-    if msg: break
-  if msg: break
+ ftxt = '' if fault is None else f' (history with gradient of parameter #{fault[1]} set to {fault[2]} at step {fault[0]})'
+ for step, (x, y) in enumerate(zip(a, b)):
+   lx, ly = jax.tree_util.tree_leaves(x), jax.tree_util.tree_leaves(y)
+   for k, (p, q) in enumerate(zip(lx, ly)):
+     for d in range(D):
+       pv, qv = np.asarray(p[0], np.float64), np.asarray(q[d], np.float64)
+       if pv.shape != qv.shape or not np.allclose(pv, qv, rtol=1e-3, atol=1e-5, equal_nan=True):
+         msg = f'step {step}: output leaf {k} on device {d} of {D} differs from the single-device run: {qv.reshape(-1)[:4]} vs {pv.reshape(-1)[:4]}' + ftxt
+         break
+     if msg: break
+   if msg: break
 print(json.dumps(msg))
 '''
 
